@@ -27,9 +27,7 @@ def run_optcall(p: Project, clause: str, modules, floor: int) -> RuleResult:
             continue
         sn = fi.self_name
         sites = [c for c in fi.own_nodes() if isinstance(c, ast.Call) and isinstance(c.func, ast.Attribute) and c.func.attr in OPTIONAL and not (isinstance(c.func.value, ast.Name) and c.func.value.id == sn) and not isinstance(c.func.value, ast.Call)]
-        if not sites:
-            continue
-        cfg = cfg_of(fi)
+        cfg = cfg_of(fi) if (sites or fi.cls is not None) else None
         for c in sites:
             recv, m = ast.unparse(c.func.value), c.func.attr
             if isinstance(c.func.value, ast.Name) and c.func.value.id[:1].isupper():
@@ -62,4 +60,28 @@ def run_optcall(p: Project, clause: str, modules, floor: int) -> RuleResult:
                 rr.exceptions_used.append(f"{k}: {OPTCALL_EXCEPTIONS[k]}")
                 continue
             rr.add(finding("OPTCALL", fi, c, f"`{norm(c, 70)}` calls the optional method {m}() without `hasattr({recv}, \"{m}\")` on the path: a child that does not define it (Scrollable, ScrollBar, SolidFill; ListBox lacks move_cursor_to_coords / get_pref_col) makes {fi.name}() raise AttributeError", construct=f"unguarded optional call {norm(c, 70)}"))
+        # a WidgetWrap subclass that overrides an optional method as a *method* always has it (hasattr() is true for
+        # every caller) and reaches the wrapped widget through super().<method>(): the wrapped widget's own lack of the
+        # method then surfaces as AttributeError inside the call (GridFlow without cells wraps a Divider; fix 3f5f19c).
+        # Such a super() call is guarded by hasattr(self._w / self._wrapped_widget, <method>).
+        if fi.cls is not None and any(k.name in ("WidgetWrap", "DelegateToWidgetMixin") for k in p.mro(fi.cls)[1:]):
+            for c in [c for c in fi.own_nodes() if isinstance(c, ast.Call) and isinstance(c.func, ast.Attribute) and c.func.attr in OPTIONAL and c.func.attr != "mouse_event" and isinstance(c.func.value, ast.Call) and isinstance(c.func.value.func, ast.Name) and c.func.value.func.id == "super"]:
+                m = c.func.attr
+                node = (nodes_where(cfg, lambda x: x is c) or [None])[0]
+                if node is None:
+                    continue
+                guarded = False
+                for t in cfg.nodes:
+                    if t.kind != "test":
+                        continue
+                    txt = ast.unparse(t.ast)
+                    for recv in (f"{sn}._w", f"{sn}._wrapped_widget"):
+                        pos = f"hasattr({recv}, '{m}')"
+                        if txt == f"not {pos}":
+                            guarded |= node not in ExcEngine._reach_without_edge(cfg, t, "F")
+                        elif txt == pos:
+                            guarded |= node not in ExcEngine._reach_without_edge(cfg, t, "T")
+                rr.inst(f"{short(fi)}:{norm(c, 50)}", True, {"caller": short(fi), "call": norm(c, 60), "guarded": guarded} if len(rr.samples) < 8 else None)
+                if not guarded:
+                    rr.add(finding("OPTCALL", fi, c, f"`{norm(c, 60)}` forwards {m}() to the wrapped widget without `hasattr({sn}._w, \"{m}\")`: {fi.cls.name} defines the method itself, so every caller's hasattr() test passes, and a wrapped widget without it (the Divider an empty GridFlow displays) raises AttributeError inside the call", construct=f"{fi.cls.name}.{fi.name}: optional method forwarded to the wrapped widget unguarded"))
     return rr
